@@ -136,7 +136,7 @@ def driver_exe():
     return os.path.join(LEAN, ".lake", "build", "bin", "mavdrv")
 
 
-def run_group(group, n, seed, tier, replay_file=None, preamble=None):
+def run_group(group, n, seed, tier, replay_file=None, preamble=None, keep_partial=False):
     """Run the harness (implementation) and the driver (model/spec) on the same op lines.
     Returns list of (op, impl, model, spec_or_None), stats dict, error text."""
     exe = os.path.join(BUILD, "hx")
@@ -146,9 +146,12 @@ def run_group(group, n, seed, tier, replay_file=None, preamble=None):
         cmd = [exe, "-replay", replay_file, "-stats", stats_file]
     env = dict(GOENV, GOMEMLIMIT="8GiB")
     p = subprocess.run(cmd, stdout=subprocess.PIPE, stderr=subprocess.PIPE, env=env, text=True, timeout=7200)
+    crash = None
     if p.returncode != 0:
-        return [], {}, f"harness exited {p.returncode}: {p.stderr[-2000:]}"
-    lines = [l for l in p.stdout.split("\n") if l]
+        crash = f"harness exited {p.returncode}: {p.stderr[:1500]} ... {p.stderr[-500:]}"
+        if not keep_partial:
+            return [], {}, crash
+    lines = [l for l in p.stdout.split("\n") if l and "\t" in l]
     ops = [l.split("\t") for l in lines]
     pre = preamble or []
     inp = "\n".join(pre + [o[0] for o in ops]) + "\n"
@@ -174,7 +177,7 @@ def run_group(group, n, seed, tier, replay_file=None, preamble=None):
             k, v = l.rsplit(" ", 1)
             stats[k] = int(v)
         os.remove(stats_file)
-    return res, stats, None
+    return res, stats, crash
 
 
 def setup_ops(results):
@@ -371,6 +374,20 @@ def lean_phase(pid, cfg):
                 extra_axioms=extra, gen=gmsg)
 
 
+def crash_key(cfg, err):
+    """Name of the crash site, for a harness process that died: first library frame of the panic."""
+    if not err.startswith("harness exited"):
+        return None
+    for key, rx in cfg.get("crash_signatures", []):
+        if re.search(rx, err, re.S):
+            return key
+    m = re.search(r"(panic: [^\n]*)", err)
+    if not m:
+        return None
+    f = re.search(r"\n((?:github\.com/bluenviron/gomavlib|github\.com/pion)[^\s(]*)", err)
+    return "crash:" + re.sub(r"[^A-Za-z0-9_.:/*-]+", "_", (f.group(1) if f else m.group(1)))[:120]
+
+
 def classify(pid, cfg, op, impl, spec):
     f = cfg.get("classify")
     return f(op, impl, spec) if f else None
@@ -381,6 +398,7 @@ def do_check(pid, cfg, tier, seed):
     lp = lean_phase(pid, cfg)
     okh, hout = build_harness()
     corr_problems = []
+    crashes = []
     results, stats = [], {}
     if not okh:
         corr_problems.append("harness does not build against /repo: " + hout[-1500:])
@@ -400,9 +418,27 @@ def do_check(pid, cfg, tier, seed):
             n = sizes[tier] if lp["problems"] == [] else max(sizes[tier], sizes.get("search", sizes["thorough"]))
             pre = cfg["preamble"]() if cfg.get("preamble") else None
             PREAMBLE[:] = pre or []
-            r, st, err = run_group(group, n, seed, tier if not lp["problems"] else "thorough", preamble=pre)
-            if err:
+            kp = bool(cfg.get("crash_signatures"))
+            gtier = tier if not lp["problems"] else "thorough"
+            r, st, err = run_group(group, n, seed, gtier, preamble=pre, keep_partial=kp)
+            attempt = 0
+            while err and attempt < 12:
+                # the harness process died (a panic in a goroutine of the library cannot be recovered in-process):
+                # keep what it had printed, and run the rest of the scenarios with a derived seed
+                key = crash_key(cfg, err)
+                if key is None:
+                    break
+                crashes.append((key, group, seed + 7919 * attempt, err))
+                if (pid, key) not in load_known():
+                    break
+                attempt += 1
+                results += r
+                n = max(n - len(r) - 1, 1)
+                r, st, err = run_group(group, n, seed + 7919 * attempt, gtier, preamble=pre, keep_partial=kp)
+            if err and crash_key(cfg, err) is None:
                 corr_problems.append(f"group {group}: {err}")
+            elif err:
+                crashes.append((crash_key(cfg, err), group, seed + 7919 * attempt, err))
             results += r
             for k, v in st.items():
                 stats[k] = stats.get(k, 0) + v
@@ -436,7 +472,18 @@ def do_check(pid, cfg, tier, seed):
                 spec_diffs.append((op, impl, model, spec))
     setup = setup_ops(results) + list(PREAMBLE)
     violation = None
-    if spec_diffs:
+    new_crashes = [c for c in crashes if (pid, c[0]) not in known]
+    for c in crashes:
+        if (pid, c[0]) in known:
+            known_hits.setdefault(c[0], (f"group {c[1]} seed {c[2]}", "process died", c[3][:300]))
+    if new_crashes:
+        key, group, cseed, err = new_crashes[0]
+        path = write_replay(pid, dict(property=pid, kind="crash", seed=cseed, tier=tier, group=group, key=key,
+                                      note="the process running the real code died (panic outside any recoverable frame); "
+                                           "schedule dependent: replay re-runs the scenario group with this seed",
+                                      stderr=err, ops=[], setup=[]))
+        violation = f"VIOLATION property={pid} replay={path}"
+    elif spec_diffs:
         op, impl, model, spec = spec_diffs[0]
 
         def pred(cand):
@@ -465,8 +512,9 @@ def do_check(pid, cfg, tier, seed):
                                "gives no verdict on this input (or agrees with the implementation)")
         path = write_replay(pid, detail)
         violation = f"VIOLATION property={pid} replay={path} no-failing-input-found"
-    for key, (op, impl, spec) in sorted(known_hits.items()):
-        log(f"KNOWN-FINDING: property={pid} {key} {known[(pid, key)]}")
+    for (kp, key), text in sorted(known.items()):
+        if kp == pid:
+            log(f"KNOWN-FINDING: property={pid} {key} {text}" + (" [reproduced in this run]" if key in known_hits else ""))
     distinct = len({r[0] for r in results if r[1] not in ("", "bad-op", "Teof cur=0")})
     ev = dict(property_id=pid, tier=tier, seed=seed, level="proof",
               coverage=dict(
@@ -510,6 +558,16 @@ def do_replay(pid, cfg, path):
         log("harness does not build:", hout[-800:])
         return 1
     ops = rp.get("setup", []) + rp.get("ops", [])
+    if rp.get("kind") == "crash":
+        # schedule dependent: re-run the scenario group with the recorded seed a few times
+        for i in range(5):
+            r, _, err = run_group(rp["group"], cfg["groups"][0][1][rp.get("tier", "quick")], rp["seed"], rp.get("tier", "quick"))
+            if err and crash_key(cfg, err):
+                log(err[:1500])
+                log(f"VIOLATION property={pid} replay={path}")
+                return 1
+        log("replay: the process did not die in 5 runs of the recorded scenario group (schedule dependent)")
+        return 0
     if not ops:
         log("replay names a broken obligation only:", json.dumps(rp.get("obligations"))[:2000])
         lp = lean_phase(pid, cfg)
